@@ -291,6 +291,38 @@ CodecExpect(c, o) ==
         /\ o.decodes = (c.outer = "ok" /\ c.inner = "ok")
     ELSE o.decoded_exactly = (c.tag = "right" /\ c.body = "ok")
 
+\* C02 / C21 / C22 (pipeline order): the preparation pipeline of runner.rs as an ordered list of guarded steps; the first
+\* failing step decides the outcome code, and every preparation failure returns the previous data untouched.
+\*   size limits (10, hard mode) -> current envelope (3) -> version of current (6) -> current inner data (2) ->
+\*   CID store (8) -> signatures (9) -> script (1) -> call results (5) -> result size (10, hard mode) -> key (7)
+PrepInputs ==
+    {[family |-> "prep", air_ex |-> a, part_ex |-> p, hard |-> h, cur |-> cu, script |-> s, results |-> r, key |-> ky] :
+        a \in BOOLEAN, p \in BOOLEAN, h \in BOOLEAN,
+        cu \in {"ok", "corrupt_outer", "old_version", "corrupt_inner", "bad_store", "bad_sig"},
+        s \in {"ok", "unparsable"}, r \in {"ok", "undecodable", "too_big"}, ky \in {"ok", "bad"}}
+PrepSteps(c) ==
+    << [fails |-> c.hard /\ c.air_ex, code |-> 10],
+       [fails |-> c.hard /\ c.part_ex, code |-> 10],
+       [fails |-> c.cur = "corrupt_outer", code |-> 3],
+       [fails |-> c.cur = "old_version", code |-> 6],
+       [fails |-> c.cur = "corrupt_inner", code |-> 2],
+       [fails |-> c.cur = "bad_store", code |-> 8],
+       [fails |-> c.cur = "bad_sig", code |-> 9],
+       [fails |-> c.script = "unparsable", code |-> 1],
+       [fails |-> c.results = "undecodable", code |-> 5],
+       [fails |-> c.hard /\ c.results = "too_big", code |-> 10],
+       [fails |-> c.key = "bad", code |-> 7] >>
+RECURSIVE FirstFailure(_, _)
+FirstFailure(steps, i) == IF i > Len(steps) THEN 0 ELSE IF steps[i].fails THEN steps[i].code ELSE FirstFailure(steps, i + 1)
+PrepCode(c) == FirstFailure(PrepSteps(c), 1)
+PrepExpect(c, o) ==
+    LET want == PrepCode(c) IN
+    /\ o.out.died = ""
+    /\ IF want # 0 THEN o.out.code = want /\ o.out.eqprev /\ o.out.nnext = 0 /\ o.out.nreq = 0
+       ELSE Class(o.out.code) # "prep"
+    \* soft mode: exactly the matching flags
+    /\ (~c.hard /\ want = 0) => o.out.flags = <<c.air_ex, c.part_ex, c.results = "too_big">>
+
 RunScriptCases == {[family |-> "runscript", script |-> s] : s \in ScriptSpace}
 RunScriptExpect(c, o) == o.exec_died = ""
 TextExpect(c, o) == o.parse # "panic" /\ o.beautify # "panic" /\ o.exec_died = ""
@@ -301,6 +333,7 @@ Cases ==
       [] Family = "text" -> TextCases
       [] Family = "runscript" -> RunScriptCases
       [] Family = "xor" -> XorCases
+      [] Family = "prep" -> PrepInputs
       [] Family = "cid" -> CidCases
       [] Family = "codec" -> CodecCases
       [] Family = "bytes" -> ByteCases
@@ -318,6 +351,7 @@ Expect(c, o) ==
       [] c.family = "text" -> TextExpect(c, o)
       [] c.family = "runscript" -> RunScriptExpect(c, o)
       [] c.family = "xor" -> XorExpect(c, o)
+      [] c.family = "prep" -> PrepExpect(c, o)
       [] c.family = "cid" -> CidExpect(c, o)
       [] c.family = "codec" -> CodecExpect(c, o)
       [] c.family = "bytes" -> BytesExpect(c, o)
